@@ -81,6 +81,7 @@ def run_history(case, root, ID, ls_after_each=False):
             baseline[nm] = set(parse_ls(out["val"]))
         envs_m = {}
         envs_s = {}
+        env_owner = {}
         persistent = []
         prev = None
         failed_before = False
@@ -145,16 +146,80 @@ def run_history(case, root, ID, ls_after_each=False):
             else:
                 key = envname if cfg.get("share_env") else \
                     inst + ":" + envname
-                if key in envs_m and envs_m[key].parent is not m.session:
-                    probes["env_moved_between_instances"] = 1
                 if key not in envs_m:
                     from ckl.functions import Environment
                     envs_m[key] = lang.Scope(m.session, "scratch")
                     envs_s[key] = Environment()
+                    env_owner[key] = inst
                     probes["scratch_env"] = 1
                 mscope = envs_m[key]
-                mscope.parent = m.session
                 senv = envs_s[key]
+                if env_owner[key] != inst:
+                    # an environment belongs to the interpreter it was
+                    # first used with; handing it to another interpreter
+                    # must not expose anything of the first one: the call
+                    # is refused (runtime error) and nothing happens
+                    probes["env_moved_between_instances"] = 1
+                    if kind != "cmd":
+                        continue
+                    ev0f = {nm: len(sim.outs[nm].chunks) for nm in names}
+                    src = lang.render_command(op["stmts"])
+                    out = sim.run(idx, inst, [], lambda: call(
+                        inst, src, "cmd", senv))
+                    observed.append({"op": idx, "inst": inst, "src": src,
+                                     "foreign_env": True,
+                                     "sut": {k2: out.get(k2) for k2 in
+                                             ("kind", "val", "msg")}})
+                    leaked = any(len(sim.outs[nm].chunks) != ev0f[nm]
+                                 for nm in names)
+                    if out["kind"] not in ("rt", "syn") or leaked:
+                        V("isolation", "foreign-environment-accepted",
+                          f"op#{idx} `{src}` on {inst} in an environment "
+                          f"that belongs to {env_owner[key]}: expected a "
+                          f"refusal without effects, got {out['kind']} "
+                          f"{out.get('val')} (output written: {leaked})")
+                        break
+                    kinds_seq.append("foreign-env")
+                    nchecked += 1
+                    continue
+            if kind == "lsmod":
+                nm = op["name"]
+                try:
+                    sc = mscope.lookup(nm)
+                except Unspec:
+                    sc = None
+                if sc is None or not isinstance(sc.vars.get(nm),
+                                                lang.ModObj):
+                    continue
+                mo = sc.vars[nm]
+                out = sim.run(idx, inst, [], lambda: call(
+                    inst, f"ls({nm})", "probe", senv))
+                if out["kind"] != "val":
+                    V("session-usable", "lsmod-failed",
+                      f"op#{idx} ls({nm}) failed: {out}")
+                    break
+                got = set(parse_ls(out["val"]))
+                must = {k2 for k2, v2 in mo.members.items()
+                        if v2 is not lang.UNSPEC}
+                may = {k2 for k2, v2 in mo.members.items()
+                       if v2 is lang.UNSPEC}
+                probes["module_members_checked"] = probes.get(
+                    "module_members_checked", 0) + 1
+                observed.append({"op": idx, "lsmod": nm,
+                                 "extra": sorted(got - must - may),
+                                 "missing": sorted(must - got)})
+                if must - got or got - must - may:
+                    extra = sorted(got - must - may)
+                    V("module-object", "module-members:" + (
+                        ("private" if any(x.startswith("_") for x in extra)
+                         else "extra") if extra else "missing"),
+                      f"op#{idx} module object {nm} (module {mo.mod}) of "
+                      f"{inst} exposes unexpected {extra}, lacks "
+                      f"{sorted(must - got)}")
+                    break
+                kinds_seq.append("lsmod")
+                nchecked += 1
+                continue
             if kind == "ls":
                 if not check_names(idx, inst, mscope, senv):
                     break
@@ -433,5 +498,13 @@ def note_usage(probes, usage, inst, stmts, scope):
                             usage["aliases"].setdefault(key, set()).add(
                                 e[1])
     walk(stmts, False)
+    for s in lang.walk_stmts(stmts):
+        if s[0] == "expr" and isinstance(s[1], list) and \
+                s[1][0] in ("mcall", "call"):
+            fnm = s[1][2] if s[1][0] == "mcall" else s[1][1]
+            if isinstance(fnm, str) and "inc" in fnm:
+                usage.setdefault("inc", set()).add(inst)
+        if s[0] == "req" and inst in usage.get("inc", ()):
+            probes["public_data_reassigned_then_required"] = 1
     if any(len(v) >= 2 for v in usage["aliases"].values()):
         probes["shared_state_two_aliases"] = 1
